@@ -41,7 +41,10 @@ def comb(kind, params, inputs, regs=None):
     for nm, v in (regs or {}).items():
         regmap[block.wirevector_by_name[nm]] = v
     got, _ = _sim_outputs(block, [inputs], regmap)
-    exp = c.spec(IntOps, params, dict(inputs, **{n: v for n, (v, bw) in consts.items()}))
+    full = dict(inputs)
+    for n, (v, bw) in consts.items():
+        full[n] = inputs[bw] if v == 'alias' else v
+    exp = c.spec(IntOps, params, full)
     obs = {k: v[0] for k, v in got.items() if k in exp}
     exp = {k: int(v) for k, v in exp.items() if k in obs}
     return dict(failed=(obs != exp), observed=obs, expected=exp)
